@@ -195,6 +195,53 @@ def gen_tiv(rng, n):
     return out
 
 
+def gen_tx(rng, n):
+    """manual mode with callback sleepers whose handler re-enters the scheduler, and sleep_for with sub-millisecond parts"""
+    out = []
+    fixed = [
+        # main timer: when cancelled, cancels the dependent timer and re-arms itself; then the calls of a teardown
+        [[8, 0, 2, 100, 0, 0, 0, 0, 9], [8, 1, 1, 50, 3, 2, 1, 200, 2], [5, 1], [5, 2], [5, 1], [5, 1], [3, 1000]],
+        # chain: A cancels B, B cancels C, C arms D
+        [[8, 0, 1, 10, 1, 2, 0, 0, 9], [8, 1, 2, 20, 1, 3, 0, 0, 9], [8, 2, 3, 30, 2, 0, 4, 40, 3], [6, 1, 5], [3, 100], [3, 100]],
+        # expiry path: the handler runs in the caller of get_expired and re-arms / cancels
+        [[8, 0, 1, 10, 3, 2, 1, 5, 2], [1, 1, 2, 20], [3, 15], [3, 15], [3, 15], [5, 1]],
+        # remove + resolve by the caller
+        [[8, 0, 1, 10, 1, 1, 0, 0, 9], [8, 1, 1, 20, 2, 0, 1, 30, 2], [4, 1], [4, 1], [4, 1], [4, 1]],
+        # a handler cancelling its own (already taken) id, and an absent id
+        [[8, 0, 1, 10, 1, 1, 0, 0, 9], [8, 1, 2, 20, 1, 7, 0, 0, 9], [5, 1], [5, 2], [5, 1]],
+        # sleep_for with durations that are not whole milliseconds: 999 us, 2999 us, 750000 ns, 1 and 3 quarter-ms, whole ms
+        [[9, 0, 1, 1, 999], [9, 1, 2, 1, 2999], [9, 2, 3, 0, 750000], [9, 3, 4, 3, 1], [9, 4, 5, 3, 3], [9, 5, 6, 2, 7], [9, 6, 7, 0, 1],
+         [3, 50], [5, 2], [5, 2], [6, 1, 4], [5, 4]],
+        [[9, 0, 1, 0, 999999], [1, 1, 1, 5], [3, 10], [5, 1], [5, 1]],
+        # malformed
+        [[8, 0, 1, 10, 4, 0, 0, 0, 9], [8, 0, 1, 10, 1, 0, 0, 0, 0], [9, 0, 1, 4, 5], [9, 0, 1, 0, 1000000], [1, 0, 1], [3, 2000000000000000], [7]],
+    ]
+    out += [Case("tx", "x%d" % i, f) for i, f in enumerate(fixed)]
+    for i in range(n):
+        ops = []; pid = 0; ids = [1, 2, 3, 4]
+        for _ in range(rng.randint(4, 14)):
+            r = rng.random()
+            if r < 0.30 and pid < 150:
+                ops.append([8, pid, rng.choice(ids), rng.randint(0, 60), rng.randint(0, 3), rng.choice(ids), rng.choice(ids),
+                            rng.randint(0, 80), pid + 50 + rng.randint(0, 3)]); pid += 1
+            elif r < 0.42 and pid < 150:
+                ops.append([1, pid, rng.choice(ids), rng.randint(0, 60)]); pid += 1
+            elif r < 0.52 and pid < 150:
+                k = rng.choice([0, 1, 1, 2, 3])
+                frac = rng.choice([1, 250, 499, 500, 999, 2999, 750000, 999999, 0]) if k < 2 else rng.randint(0, 7)
+                ops.append([9, pid, rng.choice(ids), k, frac]); pid += 1
+            elif r < 0.70:
+                ops.append([3, rng.randint(0, 90)])
+            elif r < 0.78:
+                ops.append([4, rng.choice(ids)])
+            elif r < 0.93:
+                ops.append([5, rng.choice(ids)])
+            else:
+                ops.append([6, rng.choice(ids), rng.randint(1, 9)])
+        out.append(Case("tx", "xr%d" % i, ops))
+    return out
+
+
 def gen_tst(rng, n):
     out = []
     fixed = [[[1, 10, 50], [1, 30, 40], [1, 30]], [[1, 20], [1, 20], [1, 20]], [[1, 0, 0, 30], [1, 0, 30]],
@@ -260,6 +307,7 @@ def gen(seed, tier):
         cases.append(c)
     cases += malformed_tm(rng, 12 if quick else 100)
     cases += gen_tiv(rng, 60 if quick else 600)
+    cases += gen_tx(rng, 60 if quick else 800)
     cases += gen_tst(rng, 8 if quick else 60)
     cases += gen_tth(rng, 3 if quick else 20)
     return cases
@@ -275,6 +323,8 @@ def nontrivial(case, model_obs):
                 k = int(a[3])
                 if len(a) > 4 + 2 * k and int(a[4 + 2 * k]) >= 3: big = 1
         return done > 0 and big > 0
+    if case.engine == "tx":
+        return any(o and o[0] in (8, 9) for o in case.ops) and any(l.split()[:2] == ["0", "1"] for l in model_obs if l)
     if case.engine == "tiv":
         return any(o and o[0] == 3 for o in case.ops) and any(o and o[0] == 2 for o in case.ops)
     if case.engine == "tst":
